@@ -153,26 +153,28 @@ def run(ctx):
     ok = len(pc) == 1
     if ok:
         to = Tm.operand(pc[0][1]["args"][1])
-        ok = to[0] == "call" and to[1] == "std::option::Option::<T>::map" and to[2][0] == ("param", 4, mp.local_name(4)) and to[2][1][0] == "agg" and to[2][1][1][0] == "closure"
+        dlp = ("param", 4, mp.local_name(4))
+        ob_ = option_body(prog, mp, Tm, to, lambda x: x == dlp)
+        ok = ob_ is not None and ob_.payload is not None and ob_.none_ok and ob_.form in ("map", "match") and bool(ob_.results)
         if ok:
-            cf = prog.fns[to[2][1][1][1]]
-            Tf = M.Terms(cf)
-            dparam = ("param", 2, cf.local_name(2))
+            cf, Tf, dparam = ob_.fn, ob_.T, ob_.payload
             now = lambda x: M.noref(M.strip(x))[0] == "call" and M.noref(M.strip(x))[1] == "std::time::Instant::now"
-            r0_ = Tf.local(0)
-            if r0_[0] == "call" and r0_[1] in ("std::time::Instant::saturating_duration_since",) and M.noref(r0_[2][0]) == dparam and now(r0_[2][1]):
-                ok = True  # deadline.saturating_duration_since(Instant::now()): zero when already past
-            else:
-                past = bool_edges(cf, Tf, lambda c_: c_[0] == "call" and c_[1].endswith("PartialOrd::ge") and now(c_[2][0]) and M.noref(M.strip(c_[2][1])) == dparam, True)
-                notpast = bool_edges(cf, Tf, lambda c_: c_[0] == "call" and c_[1].endswith("PartialOrd::ge") and now(c_[2][0]) and M.noref(M.strip(c_[2][1])) == dparam, False)
-                rets = {}
-                for bb in cf.live_blocks():
-                    t = cf.blocks[bb]["term"]
-                    if t["k"] == "call" and not t["dest"]["proj"] and t["dest"]["l"] == 0:
-                        rets[bb] = ("call", M.callee_str(t["f"]), tuple(Tf.operand(a) for a in t["args"]))
-                zero = [bb for bb, v in rets.items() if v[1] in ("std::time::Duration::from_secs", "std::time::Duration::from_millis") and const_of(v[2][0]) == 0]
-                sub = [bb for bb, v in rets.items() if "Sub" in v[1] and v[2][0] == dparam and now(v[2][1])]
-                ok = len(zero) == 1 and len(sub) == 1 and dominated_by_edges(cf, zero[0], past) and dominated_by_edges(cf, sub[0], notpast)
+            isd = lambda x: M.noref(M.strip(x)) == M.noref(dparam) or M.noref(x) == M.noref(dparam)
+            past = bool_edges(cf, Tf, lambda c_: c_[0] == "call" and c_[1].endswith("PartialOrd::ge") and now(c_[2][0]) and isd(c_[2][1]), True)
+            notpast = bool_edges(cf, Tf, lambda c_: c_[0] == "call" and c_[1].endswith("PartialOrd::ge") and now(c_[2][0]) and isd(c_[2][1]), False)
+            kinds = []
+            for bb, v in ob_.results:
+                if v[0] == "call" and v[1] in ("std::time::Instant::saturating_duration_since",) and isd(v[2][0]) and now(v[2][1]):
+                    kinds.append("sat")          # deadline.saturating_duration_since(Instant::now()): zero when already past
+                elif v[0] == "call" and v[1] in ("std::time::Duration::from_secs", "std::time::Duration::from_millis") and const_of(v[2][0]) == 0 and dominated_by_edges(cf, bb, past):
+                    kinds.append("zero")
+                elif v[0] == "call" and "Sub" in v[1] and isd(v[2][0]) and now(v[2][1]) and dominated_by_edges(cf, bb, notpast):
+                    kinds.append("sub")
+                elif v[0] in ("phi",) or v[0] == "local":
+                    continue                     # a join of the values classified above
+                else:
+                    kinds.append("?" + M.term_str(v)[:60])
+            ok = sorted(kinds) in (["sat"], ["sub", "zero"])
     ctx.ob("R04.3", "poll-timeout=deadline-now|0", ok, mp.loc(pc[0][0] if pc else 0), "the timeout of each poll is recomputed as deadline - Instant::now() (zero when already past)")
 
     # ---- R04.4 posix::poll: infinite without limit, guarded cast, re-arm --------------------------------------------
@@ -181,23 +183,50 @@ def run(ctx):
     lp = pp.calls_to(lambda f: M.callee_str(f) == "libc::poll")
     ok = len(lp) == 1
     if ok:
+        # The pair (timeout in ms, clipped?) handed to libc::poll, however it is computed (map(closure).unwrap_or(default), a match, ...):
+        # collect every (ms, overflow) tuple that is built for it and classify each by the condition it is built under
+        I32MAX = 2147483647
+        tparam = lambda x: M.noref(x) in (("param", 2, pp.local_name(2)), ("local", 2)) or (M.noref(x)[0] == "phi" and ("param", 2, pp.local_name(2)) in M.noref(x)[1])
+        pair_fns = [pp] + [prog.fns[c_] for c_ in sorted(M.local_callees(prog, pp)) if "{closure" in c_ and c_ in prog.fns]
+        kinds = {}
+        unknown = []
+        for pf in pair_fns:
+            Tp_ = M.Terms(pf) if pf is not pp else Tq
+            is_ms = lambda u: u[0] == "call" and u[1] == "std::time::Duration::as_millis"
+            le_t = bool_edges(pf, Tp_, lambda c_: c_[0] == "bin" and c_[1] == "Le" and const_of(c_[3]) == I32MAX and M.contains(c_[2], is_ms), True) + \
+                bool_edges(pf, Tp_, lambda c_: c_[0] == "bin" and c_[1] == "Gt" and const_of(c_[3]) == I32MAX and M.contains(c_[2], is_ms), False)
+            le_f = bool_edges(pf, Tp_, lambda c_: c_[0] == "bin" and c_[1] == "Le" and const_of(c_[3]) == I32MAX and M.contains(c_[2], is_ms), False) + \
+                bool_edges(pf, Tp_, lambda c_: c_[0] == "bin" and c_[1] == "Gt" and const_of(c_[3]) == I32MAX and M.contains(c_[2], is_ms), True)
+            is_try = lambda t_: t_[0] == "call" and "TryFrom<u128> for i32" in t_[1] and M.contains(t_, is_ms)
+            try_ok = variant_edges(pf, Tp_, is_try, 0, [0, 1], "std::result::Result<")
+            try_err = variant_edges(pf, Tp_, is_try, 1, [0, 1], "std::result::Result<")
+            none_t = variant_edges(pf, Tp_, tparam, 0, [0, 1], "std::option::Option<") if pf is pp else []
+            for bb_, si_, r_ in ((b2, i2, s2["r"]) for b2 in pf.live_blocks() for i2, s2 in enumerate(pf.blocks[b2]["stmts"]) if s2["k"] == "assign" and s2["r"]["k"] == "agg" and s2["r"].get("kind") == "tuple" and len(s2["r"]["ops"]) == 2):
+                v0, v1 = Tp_.operand(r_["ops"][0]), Tp_.operand(r_["ops"][1])
+                ovf = const_of(v1)
+                if ovf not in (0, 1) or pf.locals[r_["ops"][1]["p"]["l"]]["ty"] != "bool" if r_["ops"][1]["k"] in ("copy", "move") else ovf not in (0, 1):
+                    continue
+                c0 = const_of(v0)
+                if c0 is not None and c0 < 0 and ovf == 0:
+                    # the no-limit pair: the default of unwrap_or (built unconditionally in posix::poll), or under `timeout == None`
+                    is_default = pf is pp and any(M.callee_str(t_["f"]) == "std::option::Option::<T>::unwrap_or" and Tq.operand(t_["args"][1]) == ("agg", "tuple", (v0, v1)) for _, t_ in pp.calls())
+                    kinds.setdefault("no-limit", []).append(is_default or (bool(none_t) and dominated_by_edges(pf, bb_, none_t)))
+                elif ovf == 0 and M.contains(v0, is_ms):
+                    exact = (v0[0] == "cast" and dominated_by_edges(pf, bb_, le_t)) or \
+                        (M.noref(v0)[0] == "field" and M.noref(v0)[1][0] == "downcast" and M.noref(v0)[1][2] == "Ok" and is_try(M.noref(v0)[1][1]) and dominated_by_edges(pf, bb_, try_ok))
+                    kinds.setdefault("exact", []).append(bool(exact))
+                elif ovf == 1 and c0 == I32MAX:
+                    kinds.setdefault("clipped", []).append(dominated_by_edges(pf, bb_, le_f) or dominated_by_edges(pf, bb_, try_err))
+                else:
+                    unknown.append("(%s, %s)@%s" % (M.term_str(v0)[:50], M.term_str(v1), pf.loc(bb_)))
+        ctx.ob("R04.4", "no-limit=>infinite-timeout", kinds.get("no-limit") == [True], pp.loc(lp[0][0]),
+               "without a timeout libc::poll must get a negative constant (block until an event) with overflow = false, and only then (pairs found: %s)" % kinds.get("no-limit"))
+        okc = kinds.get("exact") == [True] and kinds.get("clipped") == [True] and not unknown
+        ctx.ob("R04.4", "ms-cast-guarded", bool(okc), pp.loc(0),
+               "the millisecond count reaches libc::poll unchanged only when it fits an i32 (`ms <= i32::MAX` / i32::try_from(ms) is Ok); otherwise i32::MAX with overflow = true "
+               "(exact: %s, clipped: %s, unclassified pairs: %s)" % (kinds.get("exact"), kinds.get("clipped"), unknown))
+        # what libc::poll receives is the first component of those pairs
         ms = Tq.operand(lp[0][1]["args"][2])
-        tup = ms[1] if ms[0] == "field" and ms[2] == "0" else None
-        ok = tup is not None and tup[0] == "call" and tup[1] == "std::option::Option::<T>::unwrap_or" and tup[2][1][0] == "agg" and const_of(tup[2][1][2][0]) is not None and const_of(tup[2][1][2][0]) < 0 and const_of(tup[2][1][2][1]) == 0
-        ctx.ob("R04.4", "no-limit=>infinite-timeout", ok, pp.loc(lp[0][0]), "without a timeout libc::poll must get a negative constant (block until an event), and overflow=false")
-        mapc = tup[2][0] if ok else None
-        okc = bool(ok and mapc[0] == "call" and mapc[1] == "std::option::Option::<T>::map" and ("param", 2, pp.local_name(2)) in M.alts(mapc[2][0]))
-        if okc:
-            cf = prog.fns[mapc[2][1][1][1]]
-            Tf = M.Terms(cf)
-            le = bool_edges(cf, Tf, lambda c_: c_[0] == "bin" and c_[1] == "Le" and const_of(c_[3]) == 2147483647 and M.contains(c_[2], lambda u: u[0] == "call" and u[1] == "std::time::Duration::as_millis"), True)
-            gt = bool_edges(cf, Tf, lambda c_: c_[0] == "bin" and c_[1] == "Le" and const_of(c_[3]) == 2147483647, False)
-            casts = [(bb, s) for bb in cf.live_blocks() for s in cf.blocks[bb]["stmts"] if s["k"] == "assign" and s["r"]["k"] == "cast" and s["r"]["ty"] == "i32" and s["r"]["from"] == "u128"]
-            okc = len(casts) == 1 and dominated_by_edges(cf, casts[0][0], le)
-            big = [(bb, Tf.rvalue(s["r"])) for bb in cf.live_blocks() for s in cf.blocks[bb]["stmts"] if s["k"] == "assign" and s["p"]["l"] == 0 and s["r"]["k"] == "agg"]
-            okb = any(dominated_by_edges(cf, bb, gt) and const_of(v[2][0]) == 2147483647 and const_of(v[2][1]) == 1 for bb, v in big) and any(dominated_by_edges(cf, bb, le) and const_of(v[2][1]) == 0 for bb, v in big)
-            okc = okc and okb
-        ctx.ob("R04.4", "ms-cast-guarded", bool(okc), pp.loc(0), "the u128 -> i32 millisecond cast happens only under `ms <= i32::MAX`; the other branch passes i32::MAX with overflow = true")
         # re-arm loop is covered by the deadline exit
         loops = M.sccs(pp)
         okl = len(loops) == 1
@@ -233,8 +262,23 @@ def run(ctx):
         # timeout was armed (no overflow) or the deadline has passed; the loop re-arms only when nothing was ready *and* the timeout was clipped
         is_cnt = lambda t_: M.contains(t_, lambda u: u[0] == "call" and u[1] == "posix::check_err") and M.contains(t_, lambda u: u[0] == "call" and u[1] == "libc::poll")
         zc, nzc = zero_test_edges(pp, Tq, is_cnt)
-        is_ovf = lambda c_: M.noref(c_)[0] == "field" and M.noref(c_)[2] == "1" and M.contains(c_, lambda u: u[0] == "call" and u[1] == "std::option::Option::<T>::unwrap_or")
-        ov_t, ov_f = bool_edges(pp, Tq, is_ovf, True), bool_edges(pp, Tq, is_ovf, False)
+        # the `overflow` flag: component 1 of the pair (a field of the unwrap_or result, or a local copied out of the pair-typed local)
+        ovf_locals = set()
+        for l_ in range(len(pp.locals)):
+            if pp.locals[l_]["ty"] != "bool":
+                continue
+            for (db_, dsi_, dr_) in pp.defs().get(l_, []):
+                if dr_.get("k") == "use" and dr_["op"]["k"] in ("copy", "move") and [e_["k"] for e_ in dr_["op"]["p"]["proj"]] == ["field"] and dr_["op"]["p"]["proj"][0].get("name") == "1" \
+                        and pp.locals[dr_["op"]["p"]["l"]]["ty"].replace(" ", "") in ("(i32,bool)",):
+                    ovf_locals.add(l_)
+        def ovf_edges(val):
+            out = []
+            for bb_ in pp.live_blocks():
+                t_ = pp.blocks[bb_]["term"]
+                if t_["k"] == "switch" and t_["d"]["k"] in ("copy", "move") and not t_["d"]["p"]["proj"] and Tq.origin_local(t_["d"]) in ovf_locals:
+                    out.append((bb_, M.switch_target(t_, 1 if val else 0)))
+            return out
+        ov_t, ov_f = ovf_edges(True), ovf_edges(False)
         cnt_rets = []
         for (bb_, si_, v_, r_) in result_variants(pp, M.Explore(pp)):
             if v_ == "Ok" and const_of(Tq.operand(r_["ops"][0])) is None:
